@@ -1,6 +1,7 @@
 SPECIFICATION Spec
 CONSTANTS
   Tier = "quick"
+  ImplFixes = {}
 VIEW View
 INVARIANTS DesignInvariants Emit
 CHECK_DEADLOCK FALSE
